@@ -248,6 +248,18 @@ def run_case(case, res):
         if probs:
             base = dict(kind=case["kind"], dtype=case["dtype"], qtype=case["qtype"], act=case["act"], history=hist, x=api.enc_tensor(x), note=[f"step {i} {s}: {p}" for i, s, p in probs][:4])
             res.candidate("lifecycle", "ALG", base, exact=False)
+            if MISMATCH and wq.qt(case["qtype"]).bits < 8:
+                # terms differ for low-bit weights: besides the seed, replay weights whose quotients x/scale sit on rounding
+                # ties with an odd zero-point (every row/group spans [-1, 2^bits - 2]: scale 1, zero-point 1; elements k + 1/2),
+                # the inputs on which two roundings of "the same" formula can disagree
+                fm, _ = models.make(case["kind"], dt)
+                hi = float(2 ** wq.qt(case["qtype"]).bits - 2)
+                pat = torch.tensor([-1.0, hi, 0.5, 1.5])
+                pv = {}
+                for n, p in fm.named_parameters():
+                    if p.ndim >= 2:
+                        pv[n] = api.enc_tensor(pat.repeat((p.numel() + 3) // 4)[: p.numel()].reshape(p.shape).to(dt))
+                res.candidate("lifecycle", "ALG", dict(base, params=pv), note="rounding-tie weights", exact=False)
             if MISMATCH and wq.qt(case["qtype"]).bits == 8:
                 # terms differ: besides the seed, solve for an input under which they really differ (value-specific defects)
                 sol = distinguishing_inputs(m.ctx)
